@@ -111,3 +111,11 @@ Proof. reflexivity. Qed.
 Lemma src_leveldb_LoadRange_ok : src_leveldb_LoadRange =
   ["v4 := v0.NewIterator(&util.Range{Start: []byte(v1), Limit: []byte(v2)}, nil)"; "v5 := make([]string, 0, v3)"; "v6 := make([]string, 0, v3)"; "v7 := 0"; "for v4.Next() { if v3 > 0 && v7 >= v3 { break } v5 = append(v5, string(v4.Key())) v6 = append(v6, string(v4.Value())) v7++ }"; "v4.Release()"; "return v5, v6, nil"].
 Proof. reflexivity. Qed.
+
+Lemma src_LoadClusterInfo_load_callback_ok : src_LoadClusterInfo_load_callback =
+  ["func(v10 *core.RegionInfo) []*core.RegionInfo { return v0.core.CheckAndPutLoadedRegion(v10, v0.storage.SaveRegion) }"].
+Proof. reflexivity. Qed.
+
+Lemma src_StartSyncWithLeader_load_callback_ok : src_StartSyncWithLeader_load_callback =
+  ["func(v4 *core.RegionInfo) []*core.RegionInfo { return v0.server.GetBasicCluster().CheckAndPutLoadedRegion(v4, v0.server.GetStorage().SaveRegion) }"].
+Proof. reflexivity. Qed.
